@@ -6,6 +6,7 @@ Line-protocol front end for C15.
   c15 <event>*     -> per event `<queued kinds , or ->/<0|1 raised>`, `;`-joined (`.` when no events)
   event : a<k>:<v>,<k>:<v>,…  or a-   (announcement, wire order)
         | e<k>,<k>,…          or e-   (frame_errors dispatched)
+        | q<k>:<n>                    (a public request() for kind k: n attempts, never answered)
   c15judge <event>* | <observed>*   -> pass | fail   (C15.spec; observed = queued kinds per event: <k>,<k>,… or -)
 -/
 namespace PlumVerif.C15
@@ -26,19 +27,27 @@ def parseEv (s : String) : Option Ev :=
   | 'e' :: r => (parseNats (String.ofList r)).map .errors
   | _ => none
 
+def parseEv2 (s : String) : Option Ev2 :=
+  match s.toList with
+  | 'q' :: r =>
+    match (String.ofList r).splitOn ":" with
+    | [k, n] => do pure (.request (← k.toNat?) (← n.toNat?))
+    | _ => none
+  | _ => (parseEv s).map .ev
+
 def showRes (r : Res) : String :=
   (if r.queued.isEmpty then "-" else String.intercalate "," (r.queued.map toString)) ++ "/" ++
     (if r.raised then "1" else "0")
 
 def versionOps : List String → Option String
   | "c15" :: evs => do
-    let es ← evs.mapM parseEv
-    let rs := run init es
+    let es ← evs.mapM parseEv2
+    let rs := run2 init es
     pure (if rs.isEmpty then "." else String.intercalate ";" (rs.map showRes))
   | "c15judge" :: rest => do
-    let es ← (rest.takeWhile (· ≠ "|")).mapM parseEv
+    let es ← (rest.takeWhile (· ≠ "|")).mapM parseEv2
     let obs ← ((rest.dropWhile (· ≠ "|")).drop 1).mapM parseNats
-    if rest.contains "|" then pure (if spec es obs then "pass" else "fail") else none
+    if rest.contains "|" then pure (if spec2 es obs then "pass" else "fail") else none
   | _ => none
 
 end PlumVerif.C15
